@@ -1143,15 +1143,18 @@ func c01SingleBlob(u c01OpUnit, b1, b2 byte, s, pos, tail int) []byte {
 		pcI = c01LongPrefix
 	}
 	code, mask := refpvm.Concat(list...)
-	// jump table: entry 0 → a block start, entry 1 → the first operand byte of I
-	// (a non-start when s ≥ 1), entry 2 → far out of range, entry 3 → see below
+	// jump table (addresses 2, 4, 6, 8, 10): entry 0 → a block start; entry 1 → I's own pc
+	// (a dynamic jump back onto itself: with load_imm_jump_ind rA == rB the register is
+	// overwritten by the immediate, so the second execution goes elsewhere - a self loop on
+	// the first step only); entry 2 → the first operand byte of I (a non-start when s ≥ 1);
+	// entry 3 → the block start plus 2^32 (for widths z >= 5 an entry that must not be
+	// truncated to 32 bits; for narrower entries simply the block start again); entry 4 →
+	// far out of range
 	start := uint64(0)
 	if pos <= 1 {
 		start = uint64(len(code) - 1) // trailing trap, preceded by a fallthrough
 	}
-	// entry 3: the block start plus 2^32 (for widths z >= 5 an entry that must not be
-	// truncated to 32 bits; for narrower entries simply the block start again)
-	jt := []uint64{start, uint64(pcI + 1), uint64(len(code) + 100), 1<<32 + start}
+	jt := []uint64{start, uint64(pcI), uint64(pcI + 1), 1<<32 + start, uint64(len(code) + 100)}
 	return refpvm.Blob(jt, u.z, code, mask)
 }
 
@@ -1249,6 +1252,10 @@ func c01SingleSweepQuickLattice(r *vlib.Run, idx *uint64, f func(blob []byte, w 
 
 var c01ThirdRegBytes = []byte{0, 1, 2, 3, 4, 5, 6, 7, 8, 9, 10, 11, 12, 13, 14, 15, 16, 0x7F, 0x80, 0xFF}
 
+// c01UnitFilter, when set, restricts the sweep to some opcode units (a stated sub-space,
+// e.g. C04's quick tier takes only the jump units); nil = all units of the tier.
+var c01UnitFilter func(c01OpUnit) bool
+
 func c01SingleSweepAxes(r *vlib.Run, thorough bool, idx *uint64, f func(blob []byte, w *c01World, gas uint64, note string)) {
 	units := c01OpUnits(thorough)
 	if dev := os.Getenv("C01_DEV_OPS"); dev != "" { // development only: never exhaustive
@@ -1259,6 +1266,15 @@ func c01SingleSweepAxes(r *vlib.Run, thorough bool, idx *uint64, f func(blob []b
 				if v, err := strconv.Atoi(f); err == nil && byte(v) == u.op {
 					keep = append(keep, u)
 				}
+			}
+		}
+		units = keep
+	}
+	if c01UnitFilter != nil {
+		var keep []c01OpUnit
+		for _, u := range units {
+			if c01UnitFilter(u) {
+				keep = append(keep, u)
 			}
 		}
 		units = keep
